@@ -176,14 +176,20 @@ fn run(c: &Case) -> Value {
     }
 }
 
-fn run_guarded(c: &Case) -> Option<Value> {
+/// `Ok(record)`, `Err(Some(what))` if the code under test misbehaved while the slot states were
+/// being prepared (that is an observation, not a tool failure), `Err(None)` if the case could not be
+/// prepared for another reason.
+fn run_guarded(c: &Case) -> Result<Value, Option<String>> {
     match catch_unwind(AssertUnwindSafe(|| run(c))) {
-        Ok(v) => Some(v),
+        Ok(v) => Ok(v),
         Err(e) => {
             let msg = e.downcast_ref::<&str>().map(|s| s.to_string())
                 .or_else(|| e.downcast_ref::<String>().cloned()).unwrap_or_else(|| "panic".into());
+            if msg.contains("oversize reply was accepted") {
+                return Err(Some("OversizeReplyAccepted".into()));
+            }
             eprintln!("rxtriage: preparation failed for {}: {msg}", c.id);
-            None
+            Err(None)
         }
     }
 }
@@ -201,8 +207,14 @@ pub fn replay(input: &str, output: &str) -> std::io::Result<()> {
             c.id = format!("c{i}");
         }
         match run_guarded(&c) {
-            Some(v) => writeln!(out, "{v}")?,
-            None => failed += 1,
+            Ok(v) => writeln!(out, "{v}")?,
+            Err(Some(what)) => {
+                // observations made while preparing: <output>.prep, one JSON line each
+                use std::io::Write as _;
+                let mut f = std::fs::OpenOptions::new().create(true).append(true).open(format!("{output}.prep"))?;
+                writeln!(f, "{}", serde_json::json!({"id": c.id, "what": what, "targets": c.targets, "cap": c.cap}))?;
+            }
+            Err(None) => failed += 1,
         }
     }
     out.flush()?;
@@ -279,9 +291,18 @@ pub fn random(seed: u64, cases: usize, output: &str) -> std::io::Result<()> {
             }
         };
         let c = Case { id: format!("r{n}"), cap, targets, frame };
-        if let Some(v) = run_guarded(&c) {
-            writeln!(out, "{v}")?;
-            n += 1;
+        match run_guarded(&c) {
+            Ok(v) => {
+                writeln!(out, "{v}")?;
+                n += 1;
+            }
+            Err(Some(what)) => {
+                use std::io::Write as _;
+                let mut f = std::fs::OpenOptions::new().create(true).append(true).open(format!("{output}.prep"))?;
+                writeln!(f, "{}", serde_json::json!({"id": c.id, "what": what, "targets": c.targets, "cap": c.cap}))?;
+                n += 1;
+            }
+            Err(None) => {}
         }
     }
     out.flush()
